@@ -40,7 +40,7 @@ def _callees(h, entry: str) -> list:
     return sorted(out)
 
 
-def _compile_run(mod, entry: str, args: list, runnable: list) -> dict:
+def _compile_run(mod, entry: str, args: list, runnable: dict) -> dict:
     import gp
     import runner
     from hugr_interp import Budget, Interp, InterpError, Unsupported
@@ -58,8 +58,8 @@ def _compile_run(mod, entry: str, args: list, runnable: list) -> dict:
         return r
     h = pkg.modules[0]
     r["status"] = "ok"
-    r["callees"] = [c for c in _callees(h, entry) if c.startswith("v")]
-    if all(runnable[int(c[1:]) - 1] for c in r["callees"]):  # a declared function has no body to run
+    r["callees"] = [c for c in _callees(h, entry) if c in runnable]
+    if all(runnable[c] for c in r["callees"]):  # a declared function has no body to run
         try:
             it = Interp(h, sched="min", seed=0, budget=100_000)
             out = it.run(entry, [runner.to_interp(a) for a in args])
@@ -75,8 +75,8 @@ def _compile_run(mod, entry: str, args: list, runnable: list) -> dict:
 
 
 def replay_job(job: dict) -> dict:
-    """job = {"id", "src", "n" (variants), "pick" (spec's pick, 0 = reject), "runnable": [bool per variant],
-    "args"}; total (never raises)."""
+    """job = {"id", "src", "leaves": [function names in resolution order], "pick": spec's pick (a leaf name or
+    None = reject), "runnable": {leaf: has a body}, "args"}; total (never raises)."""
     import gp
 
     res: dict = {"id": job["id"]}
@@ -84,19 +84,17 @@ def replay_job(job: dict) -> dict:
     try:
         mod = gp.load(job["src"])
         res["o"] = _check(mod.main_o)
-        res["d"] = [_check(getattr(mod, f"main_d{k}")) for k in range(1, job["n"] + 1)]
+        res["d"] = {name: _check(getattr(mod, f"main_d_{name}")) for name in job["leaves"]}
         if res["o"]["status"] == "ok":
             res["o_run"] = _compile_run(mod, "main_o", job["args"], job["runnable"])
-            # the variant the code linked, and the one the spec picked, called directly
-            want = set()
+            # the function the code linked, and the one the spec picked, called directly
+            want = set(res["o_run"].get("callees", []))
             if job["pick"]:
                 want.add(job["pick"])
-            for c in res["o_run"].get("callees", []):
-                want.add(int(c[1:]))
             res["d_run"] = {}
-            for k in sorted(want):
-                if 1 <= k <= job["n"] and res["d"][k - 1]["status"] == "ok":
-                    res["d_run"][str(k)] = _compile_run(mod, f"main_d{k}", job["args"], job["runnable"])
+            for name in sorted(want):
+                if res["d"][name]["status"] == "ok":
+                    res["d_run"][name] = _compile_run(mod, f"main_d_{name}", job["args"], job["runnable"])
     except BaseException as e:  # noqa: BLE001
         res["machinery"] = {"class": type(e).__name__, "msg": str(e)[:400], "tb": traceback.format_exc()[-1500:]}
     finally:
